@@ -3,12 +3,141 @@
    point on integer-encoded arguments, [spec tag args] evaluates the
    independent specification (wildcard -9 where the spec has no opinion).
    Both are extracted to OCaml and also evaluated by vm_compute in cases_*.v. *)
-From GJ Require Import Base Kernel KernelSpec.
+From GJ Require Import Base Kernel KernelSpec Series SeriesSpec Ring RingSpec.
 
 Definition WILD : Z := -9.
 Definition BAD : list Z := [-1].
 
 Definition mkseg (ax ay bx by_ : Z) : seg := ((ax, ay), (bx, by_)).
+
+Fixpoint decode_pts (l : list Z) : list pt :=
+  match l with
+  | x :: y :: r => (x, y) :: decode_pts r
+  | _ => []
+  end.
+
+Definition enc_rect (r : rect) : list Z := [px (fst r); py (fst r); px (snd r); py (snd r)].
+Definition enc_seg (s : seg) : list Z := [px (fst s); py (fst s); px (snd s); py (snd s)].
+
+(* tag 10: series attributes. args = s :: closed :: coordinates *)
+Definition run_series (cl : Z) (coords : list Z) : list Z :=
+  let s := {| closed := cl =? 1; pts := decode_pts coords |} in
+  [b2z (series_convex s); b2z (series_clockwise s); b2z (series_empty s);
+   Z.of_nat (npoints s); Z.of_nat (num_segments s)] ++ enc_rect (series_rect s)
+  ++ flat_map enc_seg (segments s).
+
+Definition spec_series (cl : Z) (coords : list Z) : list Z :=
+  let ps := decode_pts coords in
+  let s := {| closed := cl =? 1; pts := ps |} in
+  let degenerate := series_empty s in
+  let vs := ring_vertices ps in
+  let nospec := degenerate || negb (cl =? 1) in   (* C18 speaks of closed rings *)
+  [if nospec then WILD else b2z (convex_specb vs);
+   if nospec then WILD else b2z (clockwise_specb vs);
+   WILD; Z.of_nat (length ps); Z.of_nat (length (segments_spec s))]
+  ++ (if degenerate then [WILD; WILD; WILD; WILD] else enc_rect (bbox_spec ps))
+  ++ flat_map enc_seg (segments_spec s).
+
+(* rings section: nrings :: (n_i :: 2*n_i coordinates)* ; returns rings and the rest *)
+Fixpoint take_pts (n : nat) (l : list Z) : list pt * list Z :=
+  match n, l with
+  | S k, x :: y :: r => let '(ps, rest) := take_pts k r in ((x, y) :: ps, rest)
+  | _, _ => ([], l)
+  end.
+
+Fixpoint take_rings (n : nat) (l : list Z) : list (list pt) * list Z :=
+  match n, l with
+  | S k, c :: r =>
+      let '(ps, rest) := take_pts (Z.to_nat c) r in
+      let '(rs, rest') := take_rings k rest in (ps :: rs, rest')
+  | _, _ => ([], l)
+  end.
+
+Definition mk_ring (ps : list pt) : rng := RS {| closed := true; pts := ps |}.
+Definition mk_poly (rs : list (list pt)) : poly :=
+  match rs with
+  | [] => {| exterior := mk_ring []; holes := [] |}
+  | e :: hs => {| exterior := mk_ring e; holes := map mk_ring hs |}
+  end.
+Definition mk_line (ps : list pt) : series := {| closed := false; pts := ps |}.
+
+(* tag 20: polygon point membership; args = s kind minpts nrings rings... x y.
+   The implementation reports 17 answers (geometry level, object level with
+   Point / SimplePoint / Feature wrappers); all must equal the one model answer. *)
+Definition rep (n : nat) (z : Z) : list Z := repeat z n.
+
+Definition run_poly_pip (l : list Z) : list Z :=
+  match l with
+  | nr :: r =>
+      let '(rs, rest) := take_rings (Z.to_nat nr) r in
+      match rest with
+      | [x; y] => rep 17 (b2z (poly_contains_point (mk_poly rs) (x, y)))
+      | _ => BAD
+      end
+  | _ => BAD
+  end.
+
+Definition spec_poly_pip (l : list Z) : list Z :=
+  match l with
+  | nr :: r =>
+      let '(rs, rest) := take_rings (Z.to_nat nr) r in
+      match rs, rest with
+      | e :: hs, [x; y] => rep 17 (b2z (in_polyb (ring_edges e) (map ring_edges hs) (x, y)))
+      | _, _ => BAD
+      end
+  | _ => BAD
+  end.
+
+(* tag 21: ringContainsPoint through the hook, no index: (hit, idx) for allow = true, false *)
+Definition run_ring_pip (l : list Z) : list Z :=
+  match l with
+  | n :: r =>
+      let '(ps, rest) := take_pts (Z.to_nat n) r in
+      match rest with
+      | [x; y] =>
+          let '(h1, i1) := ring_contains_point (mk_ring ps) (x, y) true in
+          let '(h0, i0) := ring_contains_point (mk_ring ps) (x, y) false in
+          [b2z h1; i1; b2z h0; i0]
+      | _ => BAD
+      end
+  | _ => BAD
+  end.
+
+Definition spec_ring_pip (l : list Z) : list Z :=
+  match l with
+  | n :: r =>
+      let '(ps, rest) := take_pts (Z.to_nat n) r in
+      match rest with
+      | [x; y] =>
+          let e := ring_edges ps in
+          [b2z (in_ringb e (x, y)); WILD; b2z (strictly_in_ringb e (x, y)); WILD]
+      | _ => BAD
+      end
+  | _ => BAD
+  end.
+
+(* tag 23: line point membership; args = s kind minpts n coords x y; 9 answers *)
+Definition run_line_pip (l : list Z) : list Z :=
+  match l with
+  | n :: r =>
+      let '(ps, rest) := take_pts (Z.to_nat n) r in
+      match rest with
+      | [x; y] => rep 9 (b2z (line_contains_point (mk_line ps) (x, y)))
+      | _ => BAD
+      end
+  | _ => BAD
+  end.
+
+Definition spec_line_pip (l : list Z) : list Z :=
+  match l with
+  | n :: r =>
+      let '(ps, rest) := take_pts (Z.to_nat n) r in
+      match rest with
+      | [x; y] => rep 9 (b2z (in_lineb ps (x, y)))
+      | _ => BAD
+      end
+  | _ => BAD
+  end.
 
 Definition run (tag : Z) (args : list Z) : list Z :=
   match tag, args with
@@ -24,6 +153,11 @@ Definition run (tag : Z) (args : list Z) : list Z :=
       let '((a, b), (c, d)) := seg_rect (mkseg ax ay bx by_) in [a; b; c; d]
   | 6, [_; ax; ay; bx; by_; x; y] =>
       [b2z (seg_contains_point (mkseg ax ay bx by_) (x, y))]
+  | 10, _ :: cl :: coords => run_series cl coords
+  | 20, _ :: _ :: _ :: l => run_poly_pip l
+  | 21, _ :: l => run_ring_pip l
+  | 22, [_; mnx; mny; mxx; mxy; x; y] => rep 9 (b2z (rect_contains_point ((mnx, mny), (mxx, mxy)) (x, y)))
+  | 23, _ :: _ :: _ :: l => run_line_pip l
   | _, _ => BAD
   end.
 
@@ -42,6 +176,11 @@ Definition spec (tag : Z) (args : list Z) : list Z :=
       [Z.min ax bx; Z.min ay by_; Z.max ax bx; Z.max ay by_]
   | 6, [_; ax; ay; bx; by_; x; y] =>
       [b2z (on_segb (mkseg ax ay bx by_) (x, y))]
+  | 10, _ :: cl :: coords => spec_series cl coords
+  | 20, _ :: _ :: _ :: l => spec_poly_pip l
+  | 21, _ :: l => spec_ring_pip l
+  | 22, [_; mnx; mny; mxx; mxy; x; y] => rep 9 (b2z (in_rectb ((mnx, mny), (mxx, mxy)) (x, y)))
+  | 23, _ :: _ :: _ :: l => spec_line_pip l
   | _, _ => BAD
   end.
 
